@@ -5,6 +5,13 @@ Import ListNotations.
 From CK Require Import Base.
 From CK Require Import Circ.
 From CK Require Import Integrate.
+From CK Require Import Scalar.
+From CK Require Import Tensor.
+From CK Require Import Pexpr.
+From CK Require Import Exec.
+From CK Require Import Ops.
+From CK Require Import Struct.
+From CK Require Import Link.
 Close Scope Qc_scope. Close Scope Q_scope. Close Scope Z_scope. Open Scope nat_scope.
 
 (* for every commutative semiring, every family of linear functionals Int (finite sums or integrals), every ok (smooth, decomposable, well-formed) circuit with input/sum/Hadamard/Kronecker nodes and every Z: each node of the integrated circuit evaluates to the iterated functional, over the variables of Z in its scope, of the original node *)
@@ -15,12 +22,48 @@ Theorem C03_integrate :
          (forall (v : nat) (f g : D -> R), (forall d : D, f d = g d) -> Int v f = Int v g) ->
          (forall (v : nat) (f g : D -> R), Int v (fun d : D => radd (f d) (g d)) = radd (Int v f) (Int v g)) ->
          (forall (v : nat) (c : R) (f : D -> R), Int v (fun d : D => rmul c (f d)) = rmul c (Int v f)) ->
-         forall (Z : list nat) (c : circuit R D),
+         forall (Z : list nat) (c : Circ.circuit R D),
          ok R rO D c ->
-         forall (o k : nat) (y : asg D),
+         forall (o k : nat) (y : Base.asg D),
          o < length c ->
          nth k (nth o (eval R rO radd rmul D (integrate R rO D Int Z c) y) []) rO =
-         IntL R D Int (zs_of Z (nth o (scopes R D c) []))
-           (fun y' : asg D => nth k (nth o (eval R rO radd rmul D c y') []) rO) y.
+         IntL R D Int (zs_of Z (nth o (Circ.scopes R D c) []))
+           (fun y' : Base.asg D => nth k (nth o (eval R rO radd rmul D c y') []) rO) y.
 Proof. exact integrate_correct. Qed.
 Print Assumptions C03_integrate.
+
+(* link: the executable operator integrate_m (model of cirkit.symbolic.functional.integrate on the algebraic fragment: Embedding / constant inputs, sums, Hadamard and Kronecker products) evaluates to the iterated sum of the semantic evaluation of the interpreted circuit *)
+Theorem C03_integrate_executable :
+  forall (dom : nat -> nat) (Z : list nat) (c c' : circuit) (y : asg) (vals' : list cvec),
+         NoDup Z ->
+         frag c = true ->
+         shapes c = true ->
+         doms dom c = true ->
+         wf c = true ->
+         integrate_m Z c = Ok c' ->
+         den_all c' y = Some vals' ->
+         forall o k : nat,
+         o < length (nodes c) ->
+         nth k (nth o vals' []) c0 =
+         SIntL dom (zs_of Z (nth o (scopes c) [])) (fun y' : sasg => nth k (nth o (SEval (interp c) y') []) c0)
+           (afun y).
+Proof. exact integrate_exec_correct. Qed.
+Print Assumptions C03_integrate_executable.
+
+(* ... stated purely on the executable denotation *)
+Theorem C03_integrate_executable_den :
+  forall (dom : nat -> nat) (Z : list nat) (c c' : circuit) (y : asg),
+         NoDup Z ->
+         frag c = true ->
+         shapes c = true ->
+         doms dom c = true ->
+         wf c = true ->
+         integrate_m Z c = Ok c' ->
+         inrange c y = true ->
+         exists vals' : list cvec,
+           den_all c' y = Some vals' /\
+           (forall o k : nat,
+            o < length (nodes c) ->
+            nth k (nth o vals' []) c0 = sum_states dom (zs_of Z (nth o (scopes c) [])) (dval c o k) y).
+Proof. exact integrate_exec_den. Qed.
+Print Assumptions C03_integrate_executable_den.
